@@ -25,7 +25,7 @@
    C07 = the conjunction (C07_statement); C07_partial = its first four clauses (C07_implies_partial). *)
 From Coq Require Import ZArith List Bool Permutation.
 Require Import Prim.Exn Prim.Bits Prim.PyList Model.Sentence Model.AssembleIter Model.Assemble Spec.AssembleSpec
-               Proofs.AssembleProofs.
+               Proofs.AssembleProofs Proofs.AssembleBounded.
 Require Import Model.Nmea Model.Tbq Model.Reader Model.Socket Model.DecodeApi Spec.SocketSpec Proofs.ReaderIsolation
                Proofs.IngestSocket Proofs.IngestProofs.
 Import ListNotations.
@@ -482,3 +482,26 @@ Proof.
   split; [vm_compute; apply Permutation_refl|].
   vm_compute. repeat split; reflexivity.
 Qed.
+
+(* ================================================================ BACKPRESSURE EXTENSION OF THE NMEAQueue CLAUSE
+
+   A bounded NMEAQueue whose final put may raise queue.Full (queue_step_b, Model/Assemble.v; Props/C03.v has the theorems
+   against the unbounded queue).  Against the STREAM readers: whenever the stream loop gets through the lines, the bounded
+   queue -- for every pattern of accepted / refused puts -- ends in the same state (buffer, pending wrapper), has put
+   exactly the stream reader's deliveries at the accepted lines (the same records: raw text, payload, validity, wrapper,
+   tag block) and has raised queue.Full exactly for its deliveries at the refused lines (bq_gate / bq_gates:
+   Proofs/AssembleBounded.v). *)
+Theorem C07_bounded_queue : forall (ios : list bq_input) st outs fin,
+  asm_run stream_step st (map fst ios) = (outs, Ok fin) ->
+  bq_run queue_step_b st ios = (bq_gates (map snd ios) outs, Ok fin).
+Proof. exact bq_stream_agree. Qed.
+Print Assumptions C07_bounded_queue.
+
+Example C07_bounded_nonvacuous :
+  let ins := [(Ok (SAis (ex_ais 2 2 102 true)), None); (Ok (SAis (ex_ais 2 1 101 false)), None);
+              (Ok (SAis (ex_ais 2 1 103 true)), None)] in
+  let ios := combine ins [BqPutOk; BqPutFull; BqPutOk] in
+  exists outs fin, asm_run stream_step asm_init (map fst ios) = (outs, Ok fin) /\ map (@length _) outs = [0; 1; 0]%nat /\
+    map bq_is_full (fst (bq_run queue_step_b asm_init ios)) = [false; true; false] /\
+    map (fun o => length (bq_outs o)) (fst (bq_run queue_step_b asm_init ios)) = [0; 0; 0]%nat.
+Proof. cbv zeta. eexists. eexists. split; [vm_compute; reflexivity|]. vm_compute. repeat split; reflexivity. Qed.
